@@ -27,12 +27,16 @@ def make_labels(kind, n, prefix="s", rng=None):
         labs = [(prefix, i) for i in range(n)]
     elif kind == "frozendict":
         labs = [frozendict(x=i, k=prefix) for i in range(n)]
+    elif kind == "negint":  # -1, -2, ...: distinct labels with colliding hashes (CPython: hash(-1) == hash(-2))
+        labs = [-(i + 1) for i in range(n)]
+    elif kind == "negtuple":
+        labs = [(-(i + 1), 0) for i in range(n)]
     elif kind == "mixed":   # unsortable mixture
         pool = [lambda i: i, lambda i: f"{prefix}{i}", lambda i: (prefix, i), lambda i: frozendict(x=i)]
         labs = [pool[i % len(pool)](i) for i in range(n)]
     else:
         raise ValueError(kind)
-    if rng is not None and kind in ("int", "str", "tuple"):
+    if rng is not None and kind in ("int", "str", "tuple", "negint", "negtuple"):
         # decouple label order from abstract order (msdm sorts inferred lists)
         perm = list(range(n))
         rng.shuffle(perm)
